@@ -203,7 +203,8 @@ def d3(ctx, F):
         for g in got:
             got_full.append(g)
         if kind == "BatchMessage":
-            got_full = got + ["decode"]
+            # (recursive form: the popped message is decoded at the head of the next poll_next; loop form: the arm continues into it)
+            got_full = got if got[-1:] == ["decode"] else got + ["decode"]
         want = [inv.get(x, x) for x in reversed(pubshape)]
         ctx.check(got_full == want and dmshape == ["decode"], "C03.D3.inverse-pipeline", "pipeline-asymmetric:%s" % kind,
                   "%s frames: publisher applies %s, subscriber applies %s (expected the inverse %s)" % (kind, pubshape, got_full, want), sub.span)
